@@ -107,8 +107,19 @@ def one(c, worker):
         subprocess.run(['rsync', '-a', '--exclude', 'target', '--exclude', '.git', '/repo/', w + '/'], check=True)
         apply(c, w)
         env = dict(os.environ, CARGO_TARGET_DIR=tgt, CARGO_NET_OFFLINE='true')
-        p = subprocess.run(['cargo', 'test', '--workspace', '--no-fail-fast', '--offline', '-q'], cwd=w, env=env, capture_output=True, text=True, timeout=1800)
-        txt = p.stdout + p.stderr
+        import signal
+        pr = subprocess.Popen(['cargo', 'test', '--workspace', '--no-fail-fast', '--offline', '-q'], cwd=w, env=env, stdout=subprocess.PIPE,
+                              stderr=subprocess.STDOUT, text=True, start_new_session=True)
+        try:
+            txt, _ = pr.communicate(timeout=600)
+        except subprocess.TimeoutExpired:
+            os.killpg(pr.pid, signal.SIGKILL)      # a mutant that makes a test loop forever: the suite kills it
+            pr.communicate()
+            return c['id'], {'status': 'killed-by-suite', 'failed': 'timeout'}
+
+        class _P:
+            returncode = pr.returncode
+        p = _P()
         if 'error[' in txt or 'error:' in txt and 'could not compile' in txt:
             return c['id'], {'status': 'does-not-compile'}
         passed = sum(int(x) for x in re.findall(r'test result: \w+\. (\d+) passed', txt))
